@@ -45,6 +45,8 @@ def _hook(event, args):
     except Exception:
         pass
 
+ANCHORS = [('process/process.py', 'process_path.mkdir(parents=True, exist_ok=False)', 'creation of the process directory'), ('process/process.py', 'self.initial_conditions.safe_save(', 'safe storage mode')]
+
 
 def shards(tier, seed):
     nk, nf, np_ = {"quick": (25, 25, 10), "thorough": (1200, 1200, 500)}[tier]
